@@ -195,6 +195,29 @@ CLAIMS = {
     note="Trusted: Go.Check as our reading of the Go spec (accepts the 73 corpus programs real Go accepted, rejects 058 as real Go did); "
          "goast dump; go_pprint.rs not covered.",
     technique="translation validation with a Lean-defined Go type/scope checker on the real Go AST"),
+ "C14": dict(
+    category="proof",
+    text="Lean theorems over Sem (Model/Sem.lean) and Model/Alpha.lean about exactly the two things in which the Core handed to mono/lift/anf/go differs "
+         "between the two ways of compiling a project - the order in which the packages' functions are concatenated (discovery order vs topological order) "
+         "and the numbering of compile_match's temporaries (one Gensym for the program vs one per package): run_perm_invariant (if function names are pairwise "
+         "distinct, Sem.run is invariant under every permutation of the function list), run_alpha_invariant_partial (renaming every function by its own renaming "
+         "does not change Sem.run when the renaming is injective on the function's names and every moved variable is let-bound inside the body; partial: closure-free "
+         "Core), separate_eq_whole_validated (a decidable validator on two Core programs - every function has a renamed twin, no extra function, dyn tables answer "
+         "alike, hypotheses of the renaming theorem - is sound: it accepts only programs that run alike), check_build_same_interface (in the C15 model of the "
+         "artefact protocol check and build accept together, write the same .interface, and the interface inside the .core is that file). Tie: on every run the "
+         "validator is evaluated by gomlmodel on the real linked Core and the real whole-program Core of every accepted project with the per-function shift of "
+         "temporaries as renaming; outside the closure-free fragment an unverified structural comparison (renamed function = function) is used instead. "
+         "Model-free oracle on the real pipeline: the 8 corpus package projects and generated multi-package projects (all DAG shapes on <= 5 packages, cross-package "
+         "traits, impls, generic functions with bounds, generic enums/structs instantiated across packages, closures, multi-file packages, ill-typed variants) are "
+         "compiled whole and separately in every topological order (sampled in the quick tier) with .interface/.core written to and re-read from JSON files; "
+         "acceptance must agree (same stage when rejected), Go.Sem of both Go ASTs and Sem of both Cores must give the same outcome, Go.Check must agree, and "
+         "check_package / build_package must serialise the same interface bytes.",
+    design_ref="§5 C14, 'C14 — as built'",
+    note="For programs with closures (about three quarters of the generated projects) equality of behaviour is observed under Sem/Go.Sem, not proved: a closure value "
+         "carries its body and environment, so the renaming theorem needs a relation on values instead of equality. The stages after Core (mono, lift, anf, go) are "
+         "the same code in both ways and are covered by the behavioural oracle only. Trusted: Lean kernel; Sem/Go.Sem/Go.Check; the Core/Go dumps and their decoders; "
+         "the project generator. No defect found on the tree.",
+    technique="Lean 4 proof (induction on fuel over the mutual interpreter; verified validator) + differential correspondence of the real Core + behavioural oracle over all topological orders"),
  "C18": dict(
     category="proof",
     text="Lean theorems over Model/Derive.lean, which holds what the generated to_json / to_string return as functions on values (toJson, toString, "
